@@ -22,7 +22,9 @@ F_WSUM = z3.Function("wsum", z3.ArraySort(z3.IntSort(), z3.RealSort()), z3.Array
 
 F_EFAC = z3.Function("efac", z3.RealSort(), z3.ArraySort(z3.IntSort(), z3.RealSort()))
 
-SPEC_FUNCS = {"count_lt", "count_le", "evw", "sum_le", "sum_ext", "old", "forall", "exists", "implies", "iff", "wsum", "exp", "log", "fresh", "same", "ite", "length", "pow", "written", "nwrites", "at_loop_entry", "divides", "is_int"}
+F_FIN = z3.Function("fin", z3.IntSort(), z3.BoolSort())
+
+SPEC_FUNCS = {"fin", "count_lt", "count_le", "evw", "sum_le", "sum_ext", "old", "forall", "exists", "implies", "iff", "wsum", "exp", "log", "fresh", "same", "ite", "length", "pow", "written", "nwrites", "at_loop_entry", "divides", "is_int"}
 
 
 class Contract:
@@ -184,6 +186,10 @@ def spec_call(interp, node, st):
         if rd is None or ra is None:
             raise ToolLimit("wsum over non-arrays")
         return F_WSUM(rd.term, ra.term, z(k))
+    if fn == "fin":
+        # abstract trajectory predicate: fin(k) <=> the model is finished after k performed time steps (the state after k steps
+        # is a function of k only: determinism of the step, see C10)
+        return F_FIN(z(interp.ev(a[0], st)))
     if fn in ("count_lt", "count_le"):
         from .interp import MaskV
         arr = interp.ev(a[0], st)
